@@ -397,6 +397,8 @@ def oracle(meta, ans):
     if ans.startswith("panic"):
         if op in ("bbc", "bbcx2", "bbc2c", "bbb", "baa") and meta["classes"] == ["short-operand"]:
             return None
+        if op in ("packl", "packr", "ppackl", "ppackr") and set(meta["classes"]) == {"short-operand"}:
+            return None  # the reference's `debug_assert!`s on the slice lengths (the model raises the same panic class)
         return "unexpected panic"
     try:
         if op in ("bfrom", "bfromm"):
